@@ -549,6 +549,11 @@ func (x *c20X) role1(v ssa.Value, bind c20Bind, d int) string {
 		// leaf-based: a phi is the operand only if every incoming value is that operand
 		var leaves []string
 		for _, e := range t.Edges {
+			if e == ssa.Value(t) || (bind == nil && x.busy[e]) {
+				// the phi feeds itself around a loop: the value of an earlier iteration is kept
+				leaves = append(leaves, c20Carried)
+				continue
+			}
 			leaves = append(leaves, x.role(e, bind, d+1))
 		}
 		return x.merged("phi", "|", leaves)
@@ -1608,7 +1613,7 @@ func (x *c20X) judgeLin(rule, cons, pos string, g []c20Group, okDetail, badDetai
 					}
 					if len(remembered) > 0 && c20HeightOperand(k) {
 						x.c.Bad(rule, cons, pos, badDetail+" — depth counted from a remembered height: the test that is there ("+f.String()+") uses "+t+" where "+k+
-							" (a height the server reported in this invocation) is required; "+strings.Join(remembered, ", ")+" is a field that an earlier invocation wrote, so a re-organisation that moves or drops the transaction is not seen")
+							" (a height the server reported in this invocation) is required; "+strings.Join(remembered, ", ")+" is a value that an earlier invocation / iteration wrote, so a re-organisation that moves or drops the transaction is not seen")
 						return
 					}
 					if !has || !isMerge {
@@ -1648,9 +1653,16 @@ func (x *c20X) judgeLin(rule, cons, pos string, g []c20Group, okDetail, badDetai
 	x.judge(rule, cons, pos, false, g, okDetail, badDetail)
 }
 
+// c20Carried names a value that a loop carries over from an earlier iteration (a
+// local that is only refreshed on some iterations): a remembered value.
+const c20Carried = "CARRIED(value kept from an earlier loop iteration)"
+
 // rememberedField: the role names a struct field that production code writes
 // outside a constructor literal, i.e. a value kept from an earlier invocation.
 func (x *c20X) rememberedField(role string) bool {
+	if role == c20Carried {
+		return true
+	}
 	if !strings.HasPrefix(role, "field:") {
 		return false
 	}
